@@ -228,7 +228,8 @@ def main(ctx):
                    classes=[case["kind"], "even" if len(s) % 2 == 0 else "odd", f"rand-len={len(s)}"])
 
     common.hyp_collect(cases, body, n_rand, ctx.seed)
-    ctx.required_classes = ["string", "int", "avp", "even", "odd", "structured-long", "refused-call-then-digit-string"]
+    list(common.first_use_sweep(col, "c18", "encode/decode agree with the reference - from the first call of the process, in every thread"))
+    ctx.required_classes = ["first-use-parked-mid-call", "string", "int", "avp", "even", "odd", "structured-long", "refused-call-then-digit-string"]
     ctx.assumptions = ["digit strings only (the statement's domain); ints have no leading zero; "
                        "special TBCD characters (*, #, a-c) are outside the statement"]
 
